@@ -1,5 +1,5 @@
 (* C16 - Replies depend only on the current position command (state-machine part). *)
-From Walleye Require Import Model.Uci Proofs.SessionProofs.
+From Walleye Require Import Model.Uci Proofs.SessionProofs Proofs.PositionGo.
 Open Scope Z_scope.
 
 (* whatever came before, `position X` leaves the same board and the same repetition record *)
@@ -33,6 +33,18 @@ Proof.
   destruct (nth_error (sends_of ev) (Nat.min (sc_pick sc) (length (sends_of ev) - 1))) as [bb|]; try reflexivity.
 Qed.
 
+(* the property as stated, on the session model: the reply to `position X` followed by `go ...` - every output line
+   and the state the session is left in - is the same from any two running sessions, whatever games, searches,
+   ucinewgames, option settings or ignored commands brought them there (given the same schedule of the clock) *)
+Theorem C16_reply_is_a_function_of_the_request : forall zt osort st st' raw1 sc1 cmds1 b t raw2 sc2 cmds2,
+  ss_phase st = Running -> ss_phase st' = Running ->
+  split_on 32 (clean_input raw1) = cmds1 -> nth_error cmds1 0 = Some s_position ->
+  play_out_position zt cmds1 = Ok (b, t) ->
+  split_on 32 (clean_input raw2) = cmds2 -> nth_error cmds2 0 = Some s_go ->
+  run zt osort st [(Line raw1, sc1); (Line raw2, sc2)] = run zt osort st' [(Line raw1, sc1); (Line raw2, sc2)].
+Proof. exact request_is_a_function. Qed.
+
 Print Assumptions C16_position_resets.
+Print Assumptions C16_reply_is_a_function_of_the_request.
 Print Assumptions C16_other_commands_stateless.
 Print Assumptions C16_go_function.
